@@ -592,7 +592,10 @@ class ReleaseJobs:
                 "scope": rng.choice([None, "global", "default"]), "ops": [{"op": "jobs"}],
                 # days between jobs; a job may run with an earlier date than the release before it (a release made with
                 # `--date <future>`, a build machine whose clock is behind): the newest tag is then "from the future"
-                "deltas": [rng.choice([3, 3, 3, 40, 400, -20, -45, -400]) for _ in range(7)]}
+                "deltas": [rng.choice([3, 3, 3, 40, 400, -20, -45, -400]) for _ in range(7)],
+                # every job runs in a fresh clone: the earlier releases are tags on the remote that arrive with the fetch;
+                # the clone's branch may have no upstream (detached HEAD of a CI checkout)
+                "clone": rng.random() < 0.4, "no_upstream": rng.random() < 0.5}
 
     def run(self, case, ctx):
         import os
@@ -613,11 +616,15 @@ class ReleaseJobs:
         pristine = {"bumpver.toml": cfg.encode(), "a.txt": ("ver %s end\n" % text).encode()}
         invoker.write_tree(d, pristine)
         os.mkdir(os.path.join(d, ".git"))
-        repo = fakevcs.FakeRepo("git", remote=False)
+        clone = bool(case.get("clone"))
+        repo = fakevcs.FakeRepo("git", remote=clone, tracking=not case.get("no_upstream"))
         repo.baseline(d)
-        argv = ["update", "--no-fetch"] + ([case["flag"]] if case["flag"] else [])
+        argv = ["update"] + ([] if clone else ["--no-fetch"]) + ([case["flag"]] if case["flag"] else [])
+        if clone:
+            ctx.probe("release_jobs_in_fresh_clones")
         committing = case["commit_cfg"] and case["flag"] != "--no-commit"
         prev = st["bid"]
+        remote_tags = []
         ctx.sample = {"campaign": self.name, "pattern": pattern, "start": text, "argv": argv, "jobs": case["jobs"]}
         for job in range(case["jobs"]):
             res = invoker.invoke(d, argv, clock, fakevcs.VcsShim(repo), fakevcs.HookShim({}))
@@ -641,7 +648,12 @@ class ReleaseJobs:
                 break
             prev = nb
             # the job records the release as a tag and throws its checkout away
-            if new not in repo.tags:
+            if clone:
+                # ... the tag lives on the remote; the next job's clone receives it when it fetches
+                remote_tags.append(new)
+                repo.tags = {}
+                repo.pending_remote_tags = [(t, repo.head_commit()) for t in remote_tags]
+            elif new not in repo.tags:
                 repo.tags[new] = repo.head_commit()
             if not committing:
                 invoker.write_tree(d, pristine)
